@@ -11,6 +11,7 @@ verus! {
 global size_of usize == 8;
 
 //@@ PDFERROR
+//@@ DEVIATIONS
 
 // ------------------------------------------------------------------ environment: opaque payload types (never looked into)
 pub struct Name { opaque: u8 }
@@ -69,6 +70,11 @@ pub open spec fn num_of(p: Primitive) -> f32 {
 // a character code / CID operand: a non-negative integer object
 pub open spec fn is_code(p: Primitive) -> bool { p matches Primitive::Integer(n) && n >= 0 }
 pub open spec fn code_of(p: Primitive) -> int { p->Integer_0 as int }
+// a CID: ISO 32000-1 Annex C (Table C.1): "Maximum value of a CID (character identifier): 65 535"
+// With the named deviation on (known finding w_code_beyond_cid_space, unrepaired tree) the limit is lifted: any
+// non-negative integer object is taken as a CID and no bound on the table is claimed.
+pub open spec fn cid_limit() -> int { if DEV_W_CODES_BEYOND_CID_SPACE() { usize::MAX as int } else { 0x10000 } }
+pub open spec fn is_cid(p: Primitive) -> bool { is_code(p) && code_of(p) < cid_limit() }
 impl Primitive {
     // proved in units/expansions_hw: Primitive::as_usize/spec  (Integer(n), n >= 0 -> Ok(n); everything else Err)
     #[verifier::external_body]
@@ -164,6 +170,8 @@ impl Widths {
         if cid < self.first_char || cid >= self.first_char + self.values@.len() { self.default } else { self.values@[cid - self.first_char] }
     }
     pub open spec fn wf(&self) -> bool { self.first_char + self.values@.len() <= usize::MAX }
+    // one past the highest code that has a slot in the table (the table is dense from first_char up to here)
+    pub open spec fn extent(&self) -> int { self.first_char + self.values@.len() }
 
 //@@ Widths::get
 //@@ Widths::new
@@ -190,8 +198,9 @@ pub open spec fn list_operand<R: Resolve>(p: Primitive, res: &R) -> Option<Seq<P
 pub open spec fn all_nums(a: Seq<Primitive>) -> bool { forall|i: int| 0 <= i < a.len() ==> is_num(#[trigger] a[i]) }
 // number of elements occupied by the group at the front of `w`: 2 (first format), 3 (second format), 0 = no group there
 pub open spec fn grp_len<R: Resolve>(w: Seq<Primitive>, res: &R) -> int {
-    if w.len() >= 2 && is_code(w[0]) && list_operand(w[1], res) is Some && all_nums(list_operand(w[1], res)->Some_0) { 2 }
-    else if w.len() >= 3 && is_code(w[0]) && is_code(w[1]) && is_num(w[2]) { 3 }
+    if w.len() >= 2 && is_cid(w[0]) && list_operand(w[1], res) is Some && all_nums(list_operand(w[1], res)->Some_0)
+        && code_of(w[0]) + list_operand(w[1], res)->Some_0.len() <= cid_limit() { 2 }
+    else if w.len() >= 3 && is_cid(w[0]) && is_cid(w[1]) && is_num(w[2]) { 3 }
     else { 0 }
 }
 // the front group assigns a width to `code`
